@@ -67,11 +67,13 @@ CHECKS["C12"] = ("layout/shape rules for the CQMap constructors, abstract evalua
     "Decides the c·q·q layouts of pure / measure / discard / encode / cups, the all-equal delta arity of measure, the wire routing of CQMap.tensor, the order and totality of the per-box dispatch with partner daggers, that every CQMap "
     "constructor call passes the kind of type its callee reads, the Born rule on scalars, and the circuit-side plumbing (is_mixed, init_and_discard, get_counts, measure). Trace preservation and numeric agreement of whole circuits are not decided.",
     TB, "DESIGN.md §4 C12")
-CHECKS["C13"] = ("effect typing of the to_tk handlers against abstractly constructed box signatures (register-arity invariant, loops summarised by verified growth), writer/reader factor agreement, "
-    "MRO-resolved dispatch analysis of the layer loop, batch-loop state discipline, shape comparison of the Born rule and the pre/postludes",
-    "Decides the angle convention of export and import (2·phase / angle/2, method names), the invariant len(qubits)/len(bits) = number of qubit/bit wires for every handler and box signature, that flag-daggered gates are exported "
-    "as dg operations and read back, that loops over a batch of circuits read scalar / post_selection / counts of the current item, the Born rule on scalars, the order and totality of the dispatch for 20 box classes, "
-    "init_and_discard / remove_ket1 / the from_tk postlude. Equality of output distributions on a simulator and the swap routing of from_tk are not decided.",
+CHECKS["C13"] = ("effect typing of the to_tk handlers against abstractly constructed box signatures (len(qubits), len(bits) and the number of outputs of the classical post-processing; loops summarised by verified growth), "
+    "symbolic case analysis of the register arithmetic of prepare_qubits / prepare_bits with a sortedness assume/guarantee check, positional effect analysis of from_tk.make_units_adjacent on symbolic rows, "
+    "writer/reader factor agreement, MRO-resolved dispatch analysis, batch-loop state discipline, def-use ordering of rename_units, shape comparison of the Born rule and the pre/postludes",
+    "Decides the angle convention of export and import, the invariants len(qubits) / len(bits) / |post_processing.cod| = numbers of qubit / bit wires for every handler and box signature, that the registers renamed by prepare_* are those "
+    "whose list entries are shifted (and that lists split by value stay sorted), that a measured bit enters the post-processing at its wire position, that from_tk maps registers to wires without the post-selected ones and moves the second "
+    "qubit of a gate right after the first, that flag-daggered gates are exported as dg operations and read back, batch loops, the Born rule, the dispatch for 20 box classes, init_and_discard / remove_ket1 / the from_tk postlude, and that "
+    "rename_units re-keys the post-selection simultaneously. Equality of output distributions on a simulator, gates on three or more qubits in from_tk and Swap boxes are not decided.",
     TB, "DESIGN.md §4 C13")
 CHECKS["C19"] = ("typestate / partition analysis of the closures of Function.then / tensor / id on symbolic wire rows (words + linear facts), finite-domain folding of tuplify / untuplify, "
     "reference interpretation of the structural constructors on wire labels for bounded widths, shape comparison of Diagram.__call__, dependency on the functor-wiring rules of C04",
